@@ -192,6 +192,63 @@ func (g *Gen) Sequence() []byte {
 	return b
 }
 
+// ---- state-directed sources --------------------------------------------------------------
+//
+// The scanners keep hidden state between tokens: nParen (`(` ++, `)` --, every SEMICOLON token
+// resets it; consulted by `...`), insertSemi, the pending unit of `1km`, and the comment
+// look-ahead findLineEnd.  A StateProbe source is
+//
+//	[state-setting prefix] [state-sensitive probe] [line end | EOF | comment]   (once or twice)
+//
+// so that every ordered combination "something that changes the state, then something whose
+// treatment depends on it, then the place where the difference becomes visible" is drawn often.
+var statePrefixGo = []string{"(", "(", "(", ")", ")", "[", "]", "{", "}", ";", ";", ";", "f(", "(a", "a;", "(a;", "a,", "a", "x\n", "\n",
+	"/* c */", "((", "))", "();", "(;", ";)", "(\n", ")\n", "if x {", "a...", "...", "!", "(//c\n", "(/*\n*/", "x.", "func(", "(a)", "[(", ")]", "{(", ")}", "return", "x++"}
+var statePrefixX = []string{"1km", "(1km", "?", "x?", "#c\n", "(#c\n", "c\"a\"", "$", "=>", "1r"}
+var stateProbeGo = []string{"...", "...", "...", "a...", "a ...", "!", "x!", "a", "1", `"s"`, "'c'", "`r`", ")", "]", "}", "++", "--", "x++", "return", "break",
+	"continue", "fallthrough", "1i", "1.5", "x.", ".", "<-", "~", ",", "(", "go", ";", "...)", "...]", ")...", "]...", "a)", "a]"}
+var stateProbeX = []string{"?", "x?", "1km", "1r", "$", "@", "=>", "->", "c\"a\"", "1km...", "x!...", "<>", "**"}
+var stateEndGo = []string{"\n", "\n", "\n", "", "", " ", "\r\n", " \n", "\t\n", " // c\n", " /* c */\n", " /* c\n */ y", " // c", " /* c */", "/* c */ /* d */\n", "/* c */ x\n",
+	"\n\n", ";", ";\n", "\x00\n", " /*", " /* c \n", "//line f:3\n", "/*line f:3*/\n", "\ny", "\n)", "\n..."}
+var stateEndX = []string{" # c\n", "#c", "#\n", " #"}
+
+// StateProbe draws one state-directed source; goOnly restricts it to Go lexemes.
+func (g *Gen) StateProbe(goOnly bool) []byte {
+	pre, probe, end := statePrefixGo, stateProbeGo, stateEndGo
+	if !goOnly {
+		pre = append(append([]string{}, pre...), statePrefixX...)
+		probe = append(append([]string{}, probe...), stateProbeX...)
+		end = append(append([]string{}, end...), stateEndX...)
+	}
+	var b []byte
+	glue := func() {
+		if g.R.Chance(40) {
+			b = append(b, ' ')
+		}
+	}
+	rounds := 1 + g.R.Intn(2)
+	for k := 0; k < rounds; k++ {
+		n := g.R.Intn(5)
+		if k > 0 {
+			n = g.R.Intn(3)
+		}
+		for i := 0; i < n; i++ {
+			b = append(b, g.R.Pick(pre)...)
+			glue()
+		}
+		b = append(b, g.R.Pick(probe)...)
+		if g.R.Chance(15) {
+			glue()
+			b = append(b, g.R.Pick(probe)...)
+		}
+		b = append(b, g.R.Pick(end)...)
+	}
+	return b
+}
+
+// StateAlphabet: the symbols of the exhaustive small-scope enumeration of the hidden state.
+var StateAlphabet = []string{";", "(", ")", "...", "\n", "a", "/*c*/"}
+
 // Mutate applies one byte-level change.
 func (g *Gen) Mutate(b []byte) []byte {
 	b = append([]byte{}, b...)
@@ -292,9 +349,15 @@ func (g *Gen) CorpusWindow() []byte {
 // Source draws one input; the stream name is counted.
 func (g *Gen) Source() []byte {
 	switch p := g.R.Intn(100); {
-	case p < 55:
+	case p < 43:
 		g.count("src_sequence")
 		return g.Sequence()
+	case p < 52:
+		g.count("src_state_probe")
+		return g.StateProbe(false)
+	case p < 55:
+		g.count("src_state_probe_mutated")
+		return g.Mutate(g.StateProbe(false))
 	case p < 70:
 		g.count("src_sequence_mutated")
 		return g.Mutate(g.Sequence())
